@@ -291,7 +291,7 @@ def frozen_in_training(ctx):
         seen_obl = set()
         for i, p in enumerate(normal):
             for em in p.obligations:
-                key_ = (em.oid, str(em.goal))
+                key_ = (em.oid, em.goal.get_id() if hasattr(em.goal, 'get_id') else str(em.goal))
                 if key_ in seen_obl:
                     continue
                 seen_obl.add(key_)
